@@ -150,7 +150,8 @@ DumpSpace == (faults = {}) =>
 \* PyCdlibException); an observation o is what the harness saw when the real open_fp ran on one
 \* faulted image.
 DocumentedResults == {"ok", "PyCdlibInvalidISO", "PyCdlibInvalidInput", "PyCdlibInternalError"}
-Budget == 5000          \* ms; a nominal open of these images takes 0.2 - 6 ms
+Budget == 5000          \* ms of PROCESSOR time (o.elapsed_ms); a nominal open of these images takes
+                        \* 0.1 - 3 ms.  Wall time is not used: the check shares the machine.
 MemBudgetKb == 131072   \* growth of the peak resident set while opening an image of <= 1 MiB
 AllowedOutcome(o) == /\ o.result \in DocumentedResults
                      /\ o.elapsed_ms <= Budget
